@@ -51,8 +51,20 @@ func Key(t *rapid.T, et int32, label string) []byte {
 	return ref.RandomKey(et, Bytes(t, label, 32))
 }
 
-// Usage draws from the usage set.
-func Usage(t *rapid.T) uint32 { return rapid.SampledFrom(Usages).Draw(t, "usage") }
+// Usage draws a key usage (never 0: Kerberos numbers key usages from 1 and gokrb5's message encryption refuses 0):
+// half of the time from the usage set, otherwise any number - small ones (every residue of
+// the derivation-constant arithmetic occurs below a few thousand), numbers up to 2^24, and the whole 32-bit range.
+func Usage(t *rapid.T) uint32 {
+	switch rapid.IntRange(0, 9).Draw(t, "usageclass") {
+	case 0, 1, 2:
+		return uint32(rapid.IntRange(1, 8191).Draw(t, "usage"))
+	case 3:
+		return uint32(rapid.IntRange(1, 1<<24).Draw(t, "usage"))
+	case 4:
+		return rapid.Uint32Min(1).Draw(t, "usage")
+	}
+	return rapid.SampledFrom(Usages).Draw(t, "usage")
+}
 
 // BoundaryLen draws a plaintext length biased to block boundaries within [0,max].
 func BoundaryLen(t *rapid.T, max int) int {
